@@ -16,7 +16,7 @@ theorem re_parser_Parser_remove_quotes_from_string :
     regexesOf "parser.py" "Parser.remove_quotes_from_string" = ["compile:[\\'\\\"]", "compile:(^['\\\"]{1}|['\\\"]{1}$)", "sub:search_pattern=[[\\'\\\"] | (^['\\\"]{1}|['\\\"]{1}$)]"] := rfl
 
 theorem re_formatter_Formatter_format_string :
-    regexesOf "formatter.py" "Formatter.format_string" = ["search:[$]", "search:^\\$\\w[\\w\\[\\]]*$", "search:[\\\"']", "search:[\\s:/\\\\;,{}()<>\\[\\]]|^#include"] := rfl
+    regexesOf "formatter.py" "Formatter.format_string" = ["search:[$]", "search:^\\$\\w[\\w\\[\\]]*$", "search:[\\\"']", "search:[\\s:/\\\\;,{}()<>\\[\\]]|^#(include|$)"] := rfl
 
 theorem re_formatter_NativeFormatter_format_string_with_nested_string :
     regexesOf "formatter.py" "NativeFormatter.format_string_with_nested_string" = ["search:\"", "search:'"] := rfl
